@@ -189,11 +189,24 @@ def c18(ctx, spec):
     for t in (0, 1, 2): ctx.run_sharded('c18_t%d' % t, n, args=['--maxext', 4, '--maxops', 5], shards=3, timeout=1200)
     if ctx.tier == 'thorough': ctx.run_sharded('c18vg_t1', 600, args=['--maxext', 3, '--maxops', 3], shards=6, timeout=3000)
 
+# ---------------------------------------------------------------------------------------------- C12
+def c12(ctx, spec):
+    ctx.build([dict(name='c12_e%d' % e, src='harness/c12_proj.cpp', cfg='asan', defs=['C12_E=%d' % e]) for e in (0, 1, 2)])
+    n = T(ctx, 8000, 300000)
+    for e in (0, 1, 2): ctx.run_sharded('c12_e%d' % e, n, args=['--maxext', 4, '--maxops', 4], shards=5)
+    ctx.extra['skipped_not_compilable_or_out_of_domain'] = {k: v for k, v in ctx.counters.items() if k.startswith('skipped:')}
+
 HIST_RULE = ('histories (3..12 steps quick, ..40 thorough) over a pool of 4 owning arrays of one (element type, rank, allocator traits): 26 operation kinds (sizing/fill/allocator-extended/copy/move/view/init-list/iterator constructors, copy/move/self assignment over '
              'every prior state, assignment from views/other element type/init lists/ranges, swap, decay, 3 reextent overloads, clear, ={}, reshape, assign(first,last), element writes, destroy); unique ids as values; extents 0..3. '
              'After EVERY step: each live array vs. its model value, storage ranges pairwise disjoint, live-object registry == sum of num_elements, outstanding blocks == non-empty arrays with matching sizes, block owner == get_allocator(), get_allocator() == what the traits prescribe. ')
 
 REGISTRY = {
+    'C12': dict(fn=c12, level='exploration',
+                rule='source = view reached by a random view program (as C01, root D 1..3) over elements struct{double a; int b; int c;} / std::complex<double> / int; one of 18 projections is applied to it: member_cast (int and double members, plus a further rotated()), element_transformed (member pointer, value lambda, reference lambda), '
+                     'static_array_cast<T const>, const_array_cast, as_const, reinterpret_array_cast<double>(2), reinterpret_array_cast<array<double,2>>(), blas::real / imag / real_doubled, arrays constructed from projections and from views of convertible element type. '
+                     'Oracle: extents equal the source\'s (plus the trailing n; last extent doubled for real_doubled) and for every index tuple the ADDRESS of the projected element equals the byte-offset rule applied to the model element (offsetof member; j*sizeof(U); 0 / sizeof(T) for real / imag), '
+                     'or its VALUE equals f(source element) re-read after the source was modified (laziness); writes through reference projections land in the source; constructed arrays are element-wise conversions. distinct = hash(view program, projection); non-trivial = >= 2 elements',
+                assumptions=['sources whose element pointer is pointer-to-const, and real/imag of read-only view types, do not compile with these projections on the pinned tree: skipped and counted', 'real_doubled is in domain only when the last dimension is contiguous (flatted precondition), decided on the model', 'layout_t::scale requires offset 0: re-based sources are out of domain']),
     'C18': dict(fn=c18, level='exploration',
                 rule='singleton MPI_Init (no mpiexec); source = view reached by a random view program (as C01, D 1..4) over an array of int/double/float; message(source.elements()) is packed with MPI_Pack: byte count and every packed element vs. the canonical sequence of the table model; '
                      'then MPI_Unpack or MPI_Sendrecv-to-self into message(dst.elements()) of a destination with equal extents but another layout (8 kinds: transposed/rotated/unrotated/reversed storage, padded block, strided-of-doubled, subarray) over poisoned storage: k-th element to k-th element, nothing outside the destination view touched. '
